@@ -113,6 +113,7 @@ type CmaEsChol struct {
 	receivedIdx int
 	operation   chan<- Task
 	updateErr   error
+	announced   bool // A MajorIteration has been sent.
 }
 
 var (
@@ -239,6 +240,7 @@ func (cma *CmaEsChol) Init(dim, tasks int) int {
 	cma.receivedIdx = 0
 	cma.operation = nil
 	cma.updateErr = nil
+	cma.announced = false
 	t := min(tasks, cma.pop)
 	return t
 }
@@ -359,6 +361,7 @@ Loop:
 				default:
 					task.Op = MajorIteration
 					task.ID = -1
+					cma.announced = true
 				}
 				operations <- task
 			}
@@ -380,9 +383,11 @@ Loop:
 	// Send the new best value if the evaluation is better than any we've
 	// found so far. Keep this separate from findBestAndUpdateTask so that
 	// we only send an iteration if we find a better location.
-	if !cma.ForgetBest {
+	// If no location has been announced at all, the best sample evaluated so far
+	// is announced in any case, so that the result is an evaluated location.
+	if !cma.ForgetBest || !cma.announced {
 		best := cma.bestIdx()
-		if best != -1 && cma.fs[best] < cma.bestF {
+		if best != -1 && (cma.fs[best] < cma.bestF || !cma.announced) {
 			task := tasks[0]
 			task.F = cma.fs[best]
 			copy(task.X, cma.xs.RawRowView(best))
